@@ -784,6 +784,57 @@ def r6(ctx):
              what='Molecule.add_fragment compares the candidate with a single associated fragment')
 
 
+@rule('C07', 'C07-R7', 'which fragments may share a molecule does not depend on what is buffered: the equality the iterator groups by compares the contig (shared with '
+                       'C06-R3) - without it a fragment joins a molecule of the previous contig only while that molecule happens to be buffered')
+def r7(ctx):
+    from ..core import include
+    from . import C06
+    include(ctx, C06, [C06.r3], 'C07-R7')
+
+
+@rule('C07', 'C07-R8', 'the position the buffers are checked against is the span of the fragment at hand: both arguments of can_be_yielded come from '
+                       '`fragment.get_span()` of the current iteration and are not replaced by state carried from earlier iterations (a running maximum '
+                       'survives the change of contig and ejects molecules the moment they are created)')
+def r8(ctx):
+    f = ctx.fn(MOLITER, 'MoleculeIterator.__iter__')
+    calls = [c for c in walk_no_nested(f) if isinstance(c, ast.Call) and isinstance(c.func, ast.Attribute) and c.func.attr == 'can_be_yielded']
+    ctx.need('C07-R8', len(calls), 1, 'can_be_yielded calls in the iterator')
+    loops = [l for l in walk_no_nested(f) if isinstance(l, ast.For) and any(x is calls[0] for x in ast.walk(l))]
+    frag = None
+    for l in loops:         # outermost loop: over the fragments
+        if isinstance(l.target, ast.Name):
+            frag = l.target.id
+            break
+    bad, unsure = [], []
+    for c in calls:
+        for a in c.args[:2]:
+            if not isinstance(a, ast.Name):
+                if not (isinstance(a, ast.Subscript) and frag and src(a.value) == f'{frag}.get_span()'):
+                    unsure.append((c, src(a)))
+                continue
+            defs = [st for st in walk_no_nested(f) if isinstance(st, (ast.Assign, ast.AugAssign)) and any(isinstance(n, ast.Name) and n.id == a.id and isinstance(n.ctx, ast.Store)
+                    for t in (st.targets if isinstance(st, ast.Assign) else [st.target]) for n in ast.walk(t))]
+            for d in defs:
+                v = d.value
+                from_span = isinstance(v, ast.Call) and isinstance(v.func, ast.Attribute) and v.func.attr == 'get_span' and (frag is None or src(v.func.value) == frag)
+                from_span = from_span or (isinstance(v, ast.Subscript) and isinstance(v.value, ast.Call) and isinstance(v.value.func, ast.Attribute) and v.value.func.attr == 'get_span')
+                if from_span:
+                    continue
+                carried = [n for n in ast.walk(v) if isinstance(n, ast.Attribute) and isinstance(n.value, ast.Name) and n.value.id == 'self' and not isinstance(getattr(n, 'ctx', None), ast.Store)
+                           and not any(isinstance(p_, ast.Call) and p_.func is n for p_ in ast.walk(v))]
+                if carried or isinstance(d, ast.AugAssign):
+                    bad.append((d, a.id, src(carried[0]) if carried else a.id))
+                else:
+                    unsure.append((d, src(v)))
+    for d, nm, st_ in bad[:2]:
+        ctx.emit('C07-R8', False, MOLITER, d, f'`{src(d)[:70]}`: the ejection position `{nm}` is taken from `{st_}`, state that outlives the iteration (and the contig): buffered molecules of a new '
+                 f'contig at lower coordinates are ejected at once and their duplicates found new molecules - the partition depends on check_eject_every', key='ejection-position-current',
+                 what='MoleculeIterator: ejection position carried over from earlier fragments')
+    if not bad:
+        ctx.emit('C07-R8', not unsure, MOLITER, calls[0], f'{len(calls)} ejection tests use the span of the current fragment' if not unsure else f'cannot tell where `{unsure[0][1][:50]}` comes from',
+                 key='ejection-position-current', undecided=bool(unsure))
+
+
 META = {
     'text': ('Decides, for every path of MoleculeIterator.__iter__: the ejection loops remove exactly the molecules they '
              'selected (index compensation is the linear form j - i over enumerate positions of the same container, in '
